@@ -400,7 +400,7 @@ pub fn main() -> i32 {
             break;
         }
     }
-    exhaustive.push(json!({"space": format!("18 curated programs + all {} two-thread programs with <= 1 op per thread + every {}th of the {} two-thread programs with <= {} ops per thread, on 5 representations (promotable at even and odd addresses); per program all interleavings of atomic steps (stateless DFS), or all with <= 2 preemptions when the full set exceeds {} executions", n1, stride, ex_total, ex_ops, cap),
+    exhaustive.push(json!({"space": format!("{} curated programs + all {} two-thread programs with <= 1 op per thread + every {}th of the {} two-thread programs with <= {} ops per thread, on 7 representations (promotable also at odd addresses); per program all interleavings of atomic steps (stateless DFS), or all with <= 2 preemptions when the full set exceeds {} executions", curated().len(), n1, stride, ex_total, ex_ops, cap),
         "histories_this_worker": ex_done, "histories_total": set.len(), "complete": !failed}));
 
     // ---- random larger programs (proptest, shrunk on failure)
